@@ -572,7 +572,89 @@ def fault_cases(draw, exhaustive_positions=True):
     return {"model": model, "all": exhaustive_positions, "picks": draw(st.lists(st.integers(0, 10000), min_size=8, max_size=8))}
 
 
-PARTS = {"decl": check_decl, "pair": check_pair, "fault": check_fault, "extend": check_extend}
+# ------------------------------------------------------------------------------------ where the files are
+
+PATH_FORMS = {
+    # spelling relative to the working directory (a sub-directory `wd` of the scratch directory) -> where that really is
+    "plain": ("input.csv", "wd/input.csv"),
+    "dot_slash": ("./input.csv", "wd/input.csv"),
+    "sub_dir": ("sub dir/input.csv", "wd/sub dir/input.csv"),
+    "through_parent": ("../wd/input.csv", "wd/input.csv"),
+    "sibling": ("../other/input.csv", "other/input.csv"),
+    "parent": ("../input.csv", "input.csv"),
+    "dot_file": (".input.csv", "wd/.input.csv"),
+    "non_ascii": ("d\u00e9p\u00f4t/input.csv", "wd/d\u00e9p\u00f4t/input.csv"),
+    "absolute": (None, "elsewhere/input.csv"),
+}
+
+
+def path_cases():
+    for form in sorted(PATH_FORMS):
+        for present in ("there", "absent", "absent_but_same_name_in_wd"):
+            for cwd in ("elsewhere", "wd"):
+                if present == "absent_but_same_name_in_wd" and PATH_FORMS[form][1] == "wd/input.csv":
+                    continue
+                yield {"form": form, "present": present, "cwd": cwd}
+
+
+def check_paths(case, rec):
+    """A model is accepted exactly when the file its reader names exists -- relative names resolved against the working
+    directory, whatever the process's current directory is -- and a rejected model writes nothing; an accepted one writes
+    its output where the writer's path says."""
+    from mpilot.program import EEMS_CSV_LIBRARIES, Program
+
+    spelled, real = PATH_FORMS[case["form"]]
+    tmp = tempfile.mkdtemp(prefix="vcheck-c12-")
+    cwd = os.getcwd()
+    try:
+        wd = os.path.join(tmp, "wd")
+        for d in ("wd", "other", "elsewhere", "wd/sub dir", "wd/d\u00e9p\u00f4t"):
+            os.makedirs(os.path.join(tmp, d))
+        content = "a\n1\n2\n"
+        real_abs = os.path.join(tmp, real)
+        if case["present"] == "there":
+            with open(real_abs, "w") as f:
+                f.write(content)
+        if case["present"] == "absent_but_same_name_in_wd":
+            with open(os.path.join(wd, "input.csv"), "w") as f:
+                f.write("a\n7\n")
+        if spelled is None:
+            spelled = real_abs
+        out_spelled = os.path.join(os.path.dirname(spelled), "written.csv") if case["form"] != "absolute" else os.path.join(tmp, "elsewhere", "written.csv")
+        out_real = os.path.join(os.path.dirname(real_abs), "written.csv")
+        text = 'R = EEMSRead(InFileName = "%s", InFieldName = a)\nC = Copy(InFieldName = R)\nW = EEMSWrite(OutFileName = "%s", OutFieldNames = [C])\n' % (
+            spelled.replace("\\", "/"), out_spelled.replace("\\", "/"))
+        os.chdir(os.path.join(tmp, case["cwd"]))
+        before = listing(tmp)
+        del EXEC_LOG[:]
+        sig = "paths|%s|%s" % (case["form"], case["present"])
+        rec.label("paths:" + case["form"])
+        rec.nontrivial_case(case)
+        try:
+            p = Program.from_source(text, libraries=EEMS_CSV_LIBRARIES, working_dir=wd)
+            p.run()
+            status, exc = "ok", None
+        except Exception as e:
+            status, exc = "error", e
+        if case["present"] == "there":
+            if status != "ok":
+                return [Failure(sig + "|wellformed_rejected:%s" % type(exc).__name__, "%s\n%s" % (sstr(exc)[:300], text))]
+            if not os.path.exists(out_real):
+                return [Failure(sig + "|output_not_where_named", "expected %s; directory now %r" % (out_real, sorted(set(listing(tmp)) - set(before))))]
+            return []
+        if status == "ok":
+            return [Failure(sig + "|illformed_accepted", "the file does not exist, yet the model ran\n%s" % text)]
+        if type(exc).__name__ != "PathDoesNotExist":
+            return [Failure(sig + "|wrong_error:%s" % type(exc).__name__, sstr(exc)[:300])]
+        if EXEC_LOG or listing(tmp) != before:
+            return [Failure(sig + "|side_effect_before_rejection", "%r %r" % (EXEC_LOG[:3], sorted(set(listing(tmp)) - set(before))))]
+        return []
+    finally:
+        os.chdir(cwd)
+        shutil.rmtree(tmp, ignore_errors=True)
+
+
+PARTS = {"decl": check_decl, "pair": check_pair, "fault": check_fault, "extend": check_extend, "paths": check_paths}
 
 
 def setup_parent(ctx):
@@ -583,5 +665,6 @@ def run_shard(ctx, rec):
     install_wrappers()
     drive_enum(ctx, rec, "decl", decl_cases(), check_decl, exhaustive=True, max_novel=40)
     drive_enum(ctx, rec, "pair", pair_cases(), check_pair, exhaustive=True, max_novel=12)
+    drive_enum(ctx, rec, "paths", path_cases(), check_paths, exhaustive=True, max_novel=12)
     drive(ctx, rec, "fault", fault_cases(), check_fault, ctx.n(160, 4000))
     drive(ctx, rec, "extend", fault_cases(), check_extend, ctx.n(400, 8000))
